@@ -156,7 +156,8 @@ int main() {
   vsim_hb_watch_mmaps(1);
   gr::Model m = gr::generate(tier() ? 2000 : 120, true);
   int version = layout == 7 ? 2 : (int)wl_range(1, 2);
-  size_t se = layout == 1 ? 0 : layout == 7 ? 8 : 4;
+  bool linvoid = layout == 3 && wl_chance(50);   // node and edge records of different sizes share one array: padding between nodes matters
+  size_t se = (layout == 1 || linvoid) ? 0 : layout == 7 ? 8 : 4;
   std::string path = std::string(vsim_workdir()) + "/g.gr";
   gr::write_file(path, gr::encode(m, version, se));
   vsim_note("plan", "nodes=%u edges=%zu version=%d sizeofEdge=%zu threads=%d", m.n, m.edges.size(), version, se, nthr);
@@ -176,7 +177,8 @@ int main() {
     }
     check_exact(g, m, ln[layout]);   // out-edges unchanged
     break; }
-  case 3: { using Gr = LC_Linear_Graph<int, uint32_t>::with_no_lockable<true>::type; Gr g; readGraph(g, path); check_by_edge_ids(g, m, ln[layout]); check_exact(g, m, ln[layout]); break; }
+  case 3: { if (linvoid) { using Gv = LC_Linear_Graph<int, void>; Gv g;   /* lockable nodes: 16-byte node records next to 8-byte edge records */ readGraph(g, path); check_exact<Gv, false>(g, m, "LC_Linear<void>"); break; }
+    using Gr = LC_Linear_Graph<int, uint32_t>::with_no_lockable<true>::type; Gr g; readGraph(g, path); check_by_edge_ids(g, m, ln[layout]); check_exact(g, m, ln[layout]); break; }
   case 4: {
     using Gr = LC_InlineEdge_Graph<int, uint32_t>::with_no_lockable<true>::type; Gr g;
     FileGraph f; f.fromFileInterleaved<uint32_t>(path);
